@@ -75,7 +75,7 @@ Definition usize_as_i64 (u : Z) : Z := if u <=? i64_max then u else u - two64.
 
 (* Token::Instruction arm, after the operand expression has been evaluated to v.
    cur : try_current_target_pc().  Result: bytes handed to emit, and the error if any.
-   InstrPanic marks where the dev build panics on integer overflow:
+   InstrPanic marks where the dev build panics on integer overflow (unreachable when both operations wrap):
    `(pc + 2)` on usize (when there is no current pc the target itself is cast to usize) and
    `target_pc - cur_pc` on i64. *)
 Definition emit_instruction (m : mnemonic) (f : form) (v : Z) (cur : option Z) : list N * option instr_error :=
@@ -88,10 +88,13 @@ Definition emit_instruction (m : mnemonic) (f : form) (v : Z) (cur : option Z) :
     if is_branch_code m then
       let target_pc := value in
       let base := match cur with Some p => p | None => as_usize target_pc end in
-      if two64 <=? base + branch_plus then inr InstrPanic else
-      let cur_pc := usize_as_i64 (base + branch_plus) in
-      let offset := target_pc - cur_pc in
-      if negb (in_i64 offset) then inr InstrPanic else
+      (* `ProgramCounter + usize` and `target_pc - cur_pc`: plain (panic on overflow) or wrapping, as translated *)
+      let sum := base + branch_plus in
+      if (two64 <=? sum) && negb branch_add_wraps then inr InstrPanic else
+      let cur_pc := usize_as_i64 (if two64 <=? sum then sum - two64 else sum) in
+      let offset0 := target_pc - cur_pc in
+      if negb (in_i64 offset0) && negb branch_sub_wraps then inr InstrPanic else
+      let offset := if in_i64 offset0 then offset0 else usize_as_i64 (offset0 mod two64) in
       if (branch_lo <=? offset) && (offset <=? branch_hi) then
         inl (if offset <? 0 then offset + branch_fix else offset)
       else if target_pc =? branch_escape_target then inl 0
